@@ -1,6 +1,7 @@
 package integrityblock
 
 import (
+	"bytes"
 	"crypto/ed25519"
 	"errors"
 
@@ -15,6 +16,10 @@ type IntegrityBlockSigner struct {
 
 // VerifyEd25519Signature verifies that the given signature can be verified with the given public key and matches the data signed.
 func VerifyEd25519Signature(publicKey ed25519.PublicKey, signature, dataToBeSigned []byte) (bool, error) {
+	if len(publicKey) != ed25519.PublicKeySize {
+		// ed25519.Verify panics on any other length.
+		return false, errors.New("integrityblock: Ed25519 public key must be 32 bytes long.")
+	}
 	signatureOk := ed25519.Verify(publicKey, dataToBeSigned, signature)
 	if !signatureOk {
 		return signatureOk, errors.New("integrityblock: Signature verification failed.")
@@ -25,6 +30,12 @@ func VerifyEd25519Signature(publicKey ed25519.PublicKey, signature, dataToBeSign
 // SignAndAddNewSignature contains the main logic for generating the new signature and
 // prepending the integrity block's signature stack with a new integrity signature object.
 func (ibs *IntegrityBlockSigner) SignAndAddNewSignature(ed25519publicKey ed25519.PublicKey, signatureAttributes SignatureAttributesMap) error {
+	// The signature is verified by readers under the public key stored in its
+	// own attributes, so that key must be the one the signature is checked with.
+	if !bytes.Equal(signatureAttributes[Ed25519publicKeyAttributeName], ed25519publicKey) {
+		return errors.New("integrityblock: signature attributes do not carry the public key the signature is verified with.")
+	}
+
 	integrityBlockBytes, err := ibs.IntegrityBlock.CborBytes()
 	if err != nil {
 		return err
